@@ -11,9 +11,11 @@ Theorems over the exact model of `see` (`Model/See.lean`, piece values regenerat
 * `see_undefended` — hence a capture (or capturing promotion) of an undefended man is favourable
   exactly when its material gain is non-negative, which it always is;
 * `loop_stops_when_ahead` — the mover, when on move with a non-negative running score, stops.
-Colour-swap invariance, "victim worth at least the attacker ⇒ favourable" for defended targets and
-agreement with the swap list on tie-free positions are decided by the correspondence/oracle stream
-(every capture of every generated position with its mirrored twin): partial.
+* `see_good_trade` — "victim worth at least the attacker ⇒ favourable", defended or not: after the first
+  capture the mover is ahead by at least the value of its own man, so the opponent's recapture leaves a
+  non-negative score and the mover then stands pat (`loop_good_trade`).
+Colour-swap invariance and agreement with the independent swap list on tie-free positions are decided by the
+`see` stream (implementation = model, and implementation vs. specification): partial.
 -/
 namespace Tcheran.Props.C20
 open Tcheran Tcheran.See
@@ -70,6 +72,73 @@ theorem see_undefended (g : Game) (mv : Move) (moved captured : Piece)
     have h1 : pieceValue .pawn ≤ pieceValue pr.piece := by cases pr <;> decide
     omega
 
+/-- after the first capture the mover is at least `victim` ahead: whatever the opponent does, the exchange
+ends with a non-negative score (the opponent recaptures once at most, then the mover stands pat) -/
+theorem loop_good_trade (b : Board) (mover : Player) (to : Sq) (fuel : Nat) (st : St) (r : Int)
+    (hcol : st.color = mover) (hpos : 0 < st.score) (hge : pieceValue st.victim ≤ st.score)
+    (h : loop b mover to fuel st = some r) : 0 ≤ r := by
+  cases fuel with
+  | zero =>
+    unfold loop at h
+    have := Option.some.inj h
+    omega
+  | succ n =>
+    unfold loop at h
+    simp only [hcol] at h
+    have hne : mover.other ≠ mover := by cases mover <;> simp [Player.other]
+    have hcond : ¬ ((mover.other = mover ∧ st.score ≥ 0) ∨ (mover.other ≠ mover ∧ st.score ≤ 0)) := by
+      rintro (⟨h1, _⟩ | ⟨_, h2⟩)
+      · exact hne h1
+      · omega
+    rw [if_neg hcond] at h
+    split at h
+    · have := Option.some.inj h; omega
+    · split at h
+      · cases h
+      · split at h
+        · cases h
+        · split at h
+          · cases h
+          · split at h
+            · have := Option.some.inj h; omega
+            · -- the opponent recaptures; then the mover is on move with a non-negative score
+              cases n with
+              | zero =>
+                unfold loop at h
+                have := Option.some.inj h
+                simp only at this
+                omega
+              | succ k =>
+                rw [loop_stops_when_ahead b mover to k _ rfl (by simp only; omega)] at h
+                have := Option.some.inj h
+                simp only at this
+                omega
+
+/-- **see_good_trade**: a plain capture of a man worth at least the capturing one is judged favourable
+(threshold 0) whenever `see` answers -/
+theorem see_good_trade (g : Game) (mv : Move) (moved captured : Piece) (r : Bool)
+    (hsrc : g.board.pieceAt mv.src = some moved) (hdst : g.board.pieceAt mv.dst = some captured)
+    (hnep : mv.isEnPassant = false) (hnp : mv.promotion = none)
+    (hval : pieceValue moved.kind ≤ pieceValue captured.kind) (h : see g mv 0 = some r) : r = true := by
+  unfold see at h
+  simp only [bind, Option.bind, hsrc, hdst, hnep, hnp, Bool.false_eq_true, if_false, pure] at h
+  cases hl : loop g.board g.player mv.dst 64
+      { score := -0 + pieceValue captured.kind, victim := moved.kind,
+        occupied := (g.board.occupancy ^^^ bb mv.src) ||| bb mv.dst,
+        attackers := allAttackersOf g.board mv.dst ((g.board.occupancy ^^^ bb mv.src) ||| bb mv.dst) &&&
+          ((g.board.occupancy ^^^ bb mv.src) ||| bb mv.dst),
+        diag := g.board.allDiagSliders &&& ((g.board.occupancy ^^^ bb mv.src) ||| bb mv.dst),
+        orth := g.board.allOrthSliders &&& ((g.board.occupancy ^^^ bb mv.src) ||| bb mv.dst),
+        color := g.player } with
+  | none => rw [hl] at h; cases h
+  | some v =>
+    rw [hl] at h
+    have hv := loop_good_trade g.board g.player mv.dst 64 _ v rfl
+      (by simp only; have := value_pos captured.kind; omega) (by simp only; omega) hl
+    have := Option.some.inj h
+    rw [← this]
+    simpa using hv
+
 example : pieceValue .queen = 900 := by decide
 
 end Tcheran.Props.C20
@@ -79,3 +148,5 @@ end Tcheran.Props.C20
 #print axioms Tcheran.Props.C20.loop_no_defenders
 #print axioms Tcheran.Props.C20.loop_stops_when_ahead
 #print axioms Tcheran.Props.C20.see_undefended
+#print axioms Tcheran.Props.C20.loop_good_trade
+#print axioms Tcheran.Props.C20.see_good_trade
